@@ -376,7 +376,13 @@ type IntersectsFeature struct {
 }
 
 func (i IntersectsFeature) Matches(f Feature, w World) bool {
-	return i.ID == f.FeatureID() || i.toGeometryQuery(w).Matches(f, w)
+	q := i.toGeometryQuery(w)
+	if _, ok := q.(Empty); ok {
+		// A feature without geometry intersects nothing, not even itself,
+		// consistent with what Compile returns.
+		return false
+	}
+	return i.ID == f.FeatureID() || q.Matches(f, w)
 }
 
 func (i IntersectsFeature) Compile(index FeatureIndex, w World) search.Iterator {
